@@ -33,7 +33,7 @@ THEOREMS = [
 LEAN_MODULES = ["PorepyVerif.C24.Props"]
 AUDIT = "PorepyVerif/C24/Audit.lean"
 DRIVER = "PorepyVerif/C24/Driver.lean"
-N = {"quick": 300, "thorough": 9000}
+N = {"quick": 250, "thorough": 9000}
 RULE = ("family 'mock' (88%): histories of 1-30 calls (add_subdomains / add_interface / remove_subdomain / "
         "replace_subdomains_and_interfaces with sd_map of 0-3 items and/or interface_map, interleaved with queries and copy()) on a "
         "MixedDimensionalGrid over 2-12 tiny grids of dimension 0-3 (PointGrid, CartGrid) and mortar grids of dimension 0-2, created in an order "
